@@ -81,6 +81,19 @@ size_t vh_alloc_size(const void *p);              /* 0 if unknown/not heap */
 int vh_have_asan(void);
 size_t vh_heap_bytes(void);
 
+/* Backstop for termination clauses: run a block under a generous process-CPU-time budget (ITIMER_VIRTUAL).
+ *   if (VH_GUARD_TRY(2)) { ...call...; vh_guard_end(); } else vh_fail("x:non-termination", ...);
+ * CPU time, not wall clock: a loaded machine cannot trip it.  The budget should be >= 1000x the expected cost. */
+#include <signal.h>
+extern sigjmp_buf vh_guard_env;
+void vh_guard_arm(int seconds);
+void vh_guard_end(void);
+#define VH_GUARD_TRY(sec) (vh_guard_arm(sec), sigsetjmp(vh_guard_env, 1) == 0)
+
+/* Every case runs under a process-CPU-time budget (default 120 s, far above any legitimate case); exceeding it abandons the
+ * case with the violation key `case:cpu-budget` (an operation that never answers).  Set to 0 to disable for a known heavy case. */
+extern int vh_case_cpu_budget;
+
 /* scribble over the stack below the caller */
 void vh_stack_scribble(int byte);
 
